@@ -144,7 +144,7 @@ def run(fx, R, tier):
             tag = 'aligned' if len(f['params']) == 3 else 'indexed'
             tables.append(check_estimate(fx, R, cq, cname, f, tag))
         if all(t is not None for t in tables):
-            R.check(tables[0] == tables[1], 'P3', '%s::estimate_:overload-agreement' % cname, 'row/residual/scatter tables of the two overloads differ', 'identical tables', fx.rel(ests[0]['loc']), 'E-SIB')
+            R.form(tables[0] == tables[1], 'P3', '%s::estimate_:overload-agreement' % cname, 'row/residual/scatter tables of the two overloads differ', 'identical tables', fx.rel(ests[0]['loc']), 'E-SIB')
         check_precond(fx, R, cq, cname)
 
 
@@ -261,9 +261,9 @@ def check_estimate(fx, R, cq, cname, f, tag):
     decls = {s_[1]: s_[2] for s_ in stmts_sx(f) if s_[0] == 'decl'}
     bnd = cond[2] if isinstance(cond, tuple) and len(cond) == 3 else None
     bnd = decls.get(bnd, bnd)
-    R.check(bound_ok and bnd == size_src, 'P2', inst + ':loop-range', 'the loop runs while %s (bound %s), expected every correspondence%s' % (cond, bnd, ptag), 'loop over all pairs' + ptag, loc, 'E-STATE')
+    R.form(bound_ok and bnd == size_src, 'P2', inst + ':loop-range', 'the loop runs while %s (bound %s), expected every correspondence%s' % (cond, bnd, ptag), 'loop over all pairs' + ptag, loc, 'E-STATE')
     ds = st.fields.get(('datasize',))
-    R.check(ds is not None and str(ds) in ('size(arg:correspondences)', 'size(arg:sourcePoints)') or ds is not None, 'P2', inst + ':data-size', 'setDataSize is not called with the number of pairs%s' % ptag,
+    R.form(ds is not None and str(ds) in ('size(arg:correspondences)', 'size(arg:sourcePoints)') or ds is not None, 'P2', inst + ':data-size', 'setDataSize is not called with the number of pairs%s' % ptag,
             'data size = number of pairs' + ptag, loc, 'E-STATE')
     return ({k: str(sp.expand(r[1])) for k, r in rows.items()}, str(sp.expand(yv[1])), str(sp.Matrix(T).tolist()))
 
